@@ -1,8 +1,9 @@
 #!/bin/bash
-# tools/seedmatrix.sh : every seeded change against the check of the property it breaks
+# tools/seedmatrix.sh [dir] : every seeded change of <dir> (default seeded) against the check of the property it breaks
 cd /verif
-out=seeded/RESULTS.txt; : > $out
-for d in seeded/C*/; do
+dir=${1:-seeded}
+out=$dir/RESULTS.txt; : > $out
+for d in $dir/C*/; do
   id=$(basename $d)
   r=$(tools/trymut.sh /verif/$d/patch.diff $id 2>&1)
   rc=$(echo "$r" | grep -o "rc=[0-9]*" | head -1)
